@@ -28,7 +28,7 @@ class K:
 
     def __init__(self, name, pre=None, claims=(), windows=None, allow_panic=(), witnesses=(),
                  variants=("rel",), note="", vectors=(), timeout=None, nopanic=True, equal_variants=False,
-                 tier="quick", solvers=None, bounds=None, split=None):
+                 tier="quick", solvers=None, bounds=None, split=None, known=()):
         self.name = name
         self.pre = pre or (lambda a: BoolVal(True))
         self.claims = list(claims)
@@ -49,6 +49,10 @@ class K:
         # the kernel is re-encoded per box (tighter intervals => most wrap/ite terms vanish).
         self.bounds = bounds or {}
         self.split = split
+        # known: [(finding id, role)] with role = lambda a -> z3 Bool over the inputs. Claims are proved
+        # outside every role; inside a role a violating, natively replayed witness is reported as
+        # KNOWN-FINDING (and nothing is reported if the defect no longer reproduces).
+        self.known = list(known)
 
     def boxes(self, tier="quick"):
         if not self.split:
